@@ -59,6 +59,8 @@ def alias_fmt(c, fmt):
     cols, sep, rest = fmt.partition(";")
     out = []
     for col in cols.split(","):
+        if alias and "/" in alias and col[:1] == 'd' and col[1:2] in ('', '!', ':', '/'):
+            continue    # (a field whose name reads like 'field/modifier' cannot be named in a format: it is not shown)
         if alias and col[:1] == 'd' and col[1:2] in ('', '!', ':', '/'):
             col = alias + col[1:]
         elif b_alias is not None and col[:1] == 'b' and col[1:2] in ('', '!', ':', '/'):
@@ -66,6 +68,8 @@ def alias_fmt(c, fmt):
             if col == "":
                 col = ":1-999"      # (a bare empty description would mean 'change nothing')
         out.append(col)
+    if not [col for col in out if not col.endswith(":-1")]:
+        out.append("st/val")        # (a table needs a visible column)
     return ",".join(out) + sep + rest
 
 
@@ -105,7 +109,8 @@ def gen_case(rng):
         # partial formats: only limits / only columns
         fmt2 = rng.choice([";%d:%d" % (rng.randint(0, 3), rng.randint(0, 3)), ";*", fmt2.split(";")[0]])
     remove = rng.sample(T.FIELDS, rng.randint(0, 2))
-    d_alias = rng.choice([None, None, None, "max(d)", "d(x)"])
+    # (... or like another field shown in one of its formats: 'st/val', 'st/name')
+    d_alias = rng.choice([None, None, None, "max(d)", "d(x)", "st/val", "st/name"])
     b_alias = rng.choice([None, None, None, None, "A", "A", ""])      # ('': a caption row with a blank cell)
     if rng.random() < 0.08:
         # a range written the other way round ("name:12-6"): the parser takes it, the table has SOME width for it,
@@ -121,7 +126,7 @@ def gen_case(rng):
     c0 = {'d_alias': d_alias, 'b_alias': b_alias}
     fmt, fmt2 = alias_fmt(c0, fmt), alias_fmt(c0, fmt2)
     remove = [d_alias if (f == 'd' and d_alias) else b_alias if (f == 'b' and b_alias is not None) else f
-              for f in remove]
+              for f in remove if not (f == 'd' and d_alias and "/" in d_alias)]
     sibling = T.gen_records(rng, (1, 3, 6)) if rng.random() < 0.4 else None
     if sibling:
         # cells of other lengths than in the first table
